@@ -279,7 +279,7 @@ impl TypedProp for C13 {
     fn info(&self) -> PropInfo {
         PropInfo {
             level: "exploration",
-            rule: "pure part (exhaustive per table): for each override table (2 hand-written + tables drawn by the seed over 4 non-modifier keys and all subsets of the 8 modifiers) every ordered list of up to 4 distinct keys of the 12-key universe is given to the real Overrides::override_keys (table compiled by the real parser) and the resulting key set compared with the reference (most modifiers wins, modifiers and key replaced by the outputs, other keys untouched). Where a modifier is listed after the key the statement does not say whether it counts: both readings are accepted there. Pipeline part: random press/release histories over the 12 keys (half of them over the keys of one override's combination plus one more modifier and one more key only, so that the combination is formed and abandoned repeatedly) through the whole state machine, override-release-on-activation on/off: at every quiescent point the OS key set equals the reference applied to the keys the layout holds; at every millisecond a key that goes down at the OS without having been physically down in the 8 ms before is the output of an override whose whole input combination was physically down in that window; keys that were all pressed after the last moment at which an override's combination was physically complete come out exactly as pressed; nothing is down at the end. Non-trivial: >= 2 overrides share the non-modifier key of the list / history, or a modifier outside every matching combination is held. Distinct: hash of (table, list | history).",
+            rule: "pure part (exhaustive per table): for each override table (2 hand-written + tables drawn by the seed over 4 non-modifier keys and all subsets of the 8 modifiers) every ordered list of up to 4 distinct keys of the 12-key universe is given to the real Overrides::override_keys (table compiled by the real parser) and the resulting key set compared with the reference (most modifiers wins, modifiers and key replaced by the outputs, other keys untouched). Where a modifier is listed after the key the statement does not say whether it counts: both readings are accepted there. Pipeline part: random press/release histories over the 12 keys (half of them over the keys of one override's combination plus one more modifier and one more key only, so that the combination is formed and abandoned repeatedly) through the whole state machine, override-release-on-activation on/off: at every quiescent point the OS key set equals the reference applied to the keys the layout holds; at every millisecond a key that goes down at the OS without having been physically down in the 8 ms before (plus one ms per input event of the last 40 ms: events are handled one per tick) is the output of an override whose whole input combination was physically down in that window; keys that were all pressed after the last moment at which an override's combination was physically complete come out exactly as pressed; nothing is down at the end. Non-trivial: >= 2 overrides share the non-modifier key of the list / history, or a modifier outside every matching combination is held. Distinct: hash of (table, list | history).",
             assumptions: vec!["ties between overrides with equally many modifiers are not decided by the statement: any of them is accepted".into()],
             extra: BTreeMap::new(),
         }
@@ -570,7 +570,10 @@ impl TypedProp for C13 {
                 let mut transient_fail: Option<Fail> = None;
                 for o in &sim.outs {
                     if let crate::sim::OutEv::Down(k) = o.ev {
-                        let lo = o.t.saturating_sub(8);
+                        // input events are handled one per tick: a burst of events in the same millisecond
+                        // reaches the OS that many ticks later, so the window grows with the events of the last 40 ms
+                        let burst = phys_log.iter().filter(|(t0, _)| *t0 + 40 >= o.t && *t0 <= o.t).count() as u64;
+                        let lo = o.t.saturating_sub(8 + burst);
                         let mut recent: BTreeSet<u16> = BTreeSet::new();
                         for (n, (t0, set)) in phys_log.iter().enumerate() {
                             let t1 = phys_log.get(n + 1).map(|x| x.0).unwrap_or(u64::MAX);
@@ -589,7 +592,7 @@ impl TypedProp for C13 {
                         if !explained && transient_fail.is_none() {
                             transient_fail = Some(Fail {
                                 sig: "mismatch:override-output-without-its-combination".into(),
-                                detail: format!("{text}{} goes down at tick {} although neither it nor the input combination of an override that outputs it was physically down in the 8 ms before (physically down then: {:?})\noutput: {}", out_name(k), o.t, recent.iter().map(|c| out_name(*c)).collect::<Vec<_>>(), crate::sim::fmt_outs(&sim.outs)),
+                                detail: format!("{text}{} goes down at tick {} although neither it nor the input combination of an override that outputs it was physically down in the window before (physically down then: {:?})\noutput: {}", out_name(k), o.t, recent.iter().map(|c| out_name(*c)).collect::<Vec<_>>(), crate::sim::fmt_outs(&sim.outs)),
                             });
                         }
                     }
